@@ -57,6 +57,7 @@ type Exec struct {
 	killPath *Term
 	prefers []*Term
 	conjMemo map[int32]map[int32]bool
+	everStubbed map[string]bool
 	prefQ   func(n int, cond *Term) *Query
 	tier string
 	backings map[string]*Object
